@@ -116,6 +116,57 @@ def written_between_rotations(run, seen, quick):
                                                   "api results": " ".join(api), "k": k, "kind": kind, "persistent": persist}))
 
 
+def auto_flush_failure(run, seen, quick):
+    """the write that fails is the one buffer_qr() starts itself when the block reaches max_block_items (blocks larger than the
+    encoder's staging buffer, so the OS is written to during that call): buffer_qr() throws, and - like for an explicit
+    write_block() - the records of the failed block, the one just handed over included, are still buffered: the recovery
+    (rotate_output to a healthy destination, write_block) produces a complete valid file holding all of them"""
+    q = lambda i: "Q:cport=%d,qn=x%s" % (i, ("%02x" % (0x40 + i)) * 1500)       # (different names: equal ones would share one table entry)
+    scen = [(t, c) for t in ("nm", "fd") for c in ("n", "g", "x")]
+    def script(t, c):
+        return "BP:tps=1000,max=3 X:%s:%s %s %s %s C R:%s:0 C W C R:%s:0 C D" % (t, c, q(1), q(2), q(3), t, t)
+    base = run_os(["os full " + script(*sc) for sc in scen])
+    lines, metas = [], []
+    for sc, b in zip(scen, base):
+        pb = parse(b)
+        if pb is None:
+            continue
+        for k in range(1, pb[2] + 1):
+            for kind in ("enospc", "short"):
+                for persist in (0, 1):
+                    lines.append("os fault %d %s %d %s" % (k, kind, persist, script(*sc))); metas.append((sc, k, kind, persist))
+    answers = run_os(lines)
+    parsed = [parse(a) for a in answers]
+    lean_lines, idx = [], []
+    for j, (m, p) in enumerate(zip(metas, parsed)):
+        if p and len(p[1]) >= 2 and p[1][1] not in ("-", "MISSING", "NONE") and not p[1][1].startswith("PART:"):
+            data, err = E.decompress(p[1][1], m[0][1])
+            if data:
+                lean_lines.append("cdns " + data.hex()); idx.append(j)
+    lean_of = dict(zip(idx, G.run_driver(lean_lines))) if run.driver_ok and lean_lines else {}
+    for j, ((sc, k, kind, persist), p, line) in enumerate(zip(metas, parsed, lines)):
+        tag = "%s/%s" % (sc[0], {"n": "plain", "g": "gzip", "x": "xz"}[sc[1]])
+        if p is None or p[3] == 0:
+            continue
+        run.case(("auto-flush", tag, k, kind, persist), True); run.count("fault during the flush buffer_qr() starts itself")
+        api = p[0]
+        # Q Q Q C R C W C R C   (10 results)
+        if len(api) != 10 or not api[2].startswith("E:"):
+            continue                       # the fault did not hit the automatic flush
+        run.count("buffer_qr() threw: recovery must hold the records of the failed block")
+        if api[4].startswith("E:") or api[6].startswith("E:"):
+            continue                       # (covered by the rotation clauses of the main scenarios)
+        lg = lean_of.get(j)
+        ok = lg is not None and not lg.startswith("S invalid") and all(("cport=%d," % i) in lg or ("cport=%d}" % i) in lg for i in (1, 2, 3))
+        if not ok:
+            sig = "fault:auto-flush-records-lost:" + tag
+            if sig not in seen:
+                seen.add(sig)
+                run.spec_fail.append((sig, line, {"why": "buffer_qr() threw while flushing the full block; after rotate_output + write_block the recovery output "
+                                                         "does not hold the three records of the failed block", "api results": " ".join(api),
+                                                  "recovery output": (lg or (p[1][1] if len(p[1]) > 1 else ""))[:300], "k": k, "kind": kind, "persistent": persist}))
+
+
 def refused_destination(run, seen):
     """the failure is a destination that cannot be opened (invalid descriptor / missing directory): rotate_output throws; whatever
     is attempted meanwhile, a later rotation to a healthy destination succeeds and the next block write produces a complete valid
@@ -273,6 +324,7 @@ def check(run):
     run.extra["faults_fired"] = fired_total
     refused_destination(run, seen)
     written_between_rotations(run, seen, quick)
+    auto_flush_failure(run, seen, quick)
     run.exhaustive = True
     run.extra["exhaustive_over"] = "fault points k of every scenario"
 
